@@ -33,8 +33,10 @@ var headerVariants = []hdr{
 	{"APPLICATION/ACTIVITY+JSON", 2}, // media types are case-insensitive in HTTP; either answer is fine
 	{"text/html, application/activity+json", 2},
 	// many media ranges, the ActivityStreams one late (an Accept header of a browser-like client)
-	{`text/html, application/xhtml+xml, application/xml;q=0.9, image/webp, application/activity+json`, 2},
-	{`text/html, application/xhtml+xml, application/xml;q=0.9, image/webp, */*;q=0.8, application/json, application/ld+json; profile="https://www.w3.org/ns/activitystreams"`, 2},
+	// (a header that names the ActivityStreams type among others, at full preference, asks for it: the
+	// documented matching is "contains one of the accepted media types")
+	{`text/html, application/xhtml+xml, application/xml;q=0.9, image/webp, application/activity+json`, 1},
+	{`text/html, application/xhtml+xml, application/xml;q=0.9, image/webp, */*;q=0.8, application/json, application/ld+json; profile="https://www.w3.org/ns/activitystreams"`, 1},
 	// a profile parameter that belongs to ANOTHER media range does not make ld+json an ActivityStreams type
 	{`application/ld+json, text/html; profile="https://www.w3.org/ns/activitystreams"`, 0},
 	{`application/json; profile="https://www.w3.org/ns/activitystreams"`, 0},
